@@ -74,6 +74,21 @@ def scenarios(ck):
         yield {'program': spec, 'backend': X.pick_backend(rng), 'prefill': [], 'keep_going': False, 'keep_failed': False, 'phases': phases}
 
 
+def enumerated(ck, b):
+    """ALL interleavings (at store / lock call granularity) of 2 workers on a 1-task program; all schedules with a bounded number of
+    preemptions for 2-3 task programs and for 3 workers"""
+    plans = ck.n([('one', 2, 1, 3, 'dict')],
+                 [('one', 2, 1, None, 'dict'), ('one', 2, 2, None, 'file'), ('one', 2, 1, 4, 'redis'), ('one', 3, 1, 2, 'dict'),
+                  ('indep2', 2, 1, 2, 'dict'), ('chain2', 2, 1, 2, 'dict'), ('chain2', 2, 2, 2, 'redis'), ('fork', 2, 1, 2, 'dict'),
+                  ('chain3', 2, 1, 2, 'file'), ('join', 2, 1, 1, 'dict')])
+    for shape, nw, nr_wait, bound, backend in plans:
+        sc0 = {'program': X.small_program(shape), 'backend': backend, 'prefill': [], 'keep_going': False, 'keep_failed': False, 'coarse': True,
+               'phases': [{'workers': [{'nr_wait': nr_wait} for _ in range(nw)], 'policy': {}}]}
+        runs, done = X.enumerate_schedules(b, sc0, ORACLES, max_preempt=bound, max_runs=ck.n(600, 4000))
+        ck.count('enumerated:%s x %d workers, %s: %d schedules%s' % (shape, nw, 'all interleavings' if bound is None else '<= %d preemptions' % bound,
+                                                                    runs, '' if done else ' (budget reached, not exhaustive)'))
+
+
 def run(ck):
     ck.prove()
     ck.assumptions = ['task functions are deterministic and side-effect free (free constructors in the generated programs)',
@@ -85,6 +100,7 @@ def run(ck):
             ck.count('policy:' + sc['phases'][0]['policy'].get('flavour', sc['phases'][0]['policy'].get('base', '?')).split(':')[0])
             if len(ck.samples) < 3 and len(res.trace) > 20:
                 ck.sample({'program': sc['program'], 'backend': sc['backend'], 'events': [X.ev_show(e) for e in res.trace[:40]]})
+    enumerated(ck, b)
     b.flush()
 
 
